@@ -301,21 +301,29 @@ type VerifFullParts struct {
 }
 
 var verifGenesisOnce sync.Once
+var verifGenesisContracts map[string]string
 
 // VerifFullGenesis builds a single-validator genesis the way cmd/utils.setGenesis + tests do.
 func VerifFullGenesis(validator common.Address, funded []common.Address) *genesis.Genesis {
-	verifGenesisOnce.Do(func() { configs.AddDefaultContract() })
+	verifGenesisOnce.Do(func() {
+		// global configuration tables: filled exactly once (they are plain maps)
+		configs.AddDefaultContract()
+		verifGenesisContracts = make(map[string]string)
+		for key, contract := range configs.GetContracts() {
+			configs.LoadGenesisContract(key, contract.Address, contract.ByteCode, contract.ABI)
+			if key != configs.StakingContractKey {
+				verifGenesisContracts[contract.Address] = contract.ByteCode
+			}
+		}
+	})
 	initValue, _ := big.NewInt(0).SetString("1000000000000000000000000000", 10)
 	accounts := map[string]*big.Int{validator.Hex(): initValue}
 	for _, a := range funded {
 		accounts[a.Hex()] = initValue
 	}
 	contracts := make(map[string]string)
-	for key, contract := range configs.GetContracts() {
-		configs.LoadGenesisContract(key, contract.Address, contract.ByteCode, contract.ABI)
-		if key != configs.StakingContractKey {
-			contracts[contract.Address] = contract.ByteCode
-		}
+	for k, v := range verifGenesisContracts {
+		contracts[k] = v
 	}
 	g := genesis.DefaulTestnetFullGenesisBlock(accounts, contracts)
 	g.ChainID = "verif-full"
